@@ -1,10 +1,10 @@
 #!/usr/bin/env python3
-"""Generates checks/seq/reg/registry_gen.go: one constructor per column composition, built
+"""Generates checks/seq/regtab/registry_gen.go: one constructor per column composition, built
 exactly as a user builds it with the exported generic constructors of package proto
 (NewArray, NewColNullable, NewLowCardinality, NewMap, ColTuple). Typed generic columns
 cannot be instantiated at run time, hence generated code.
 
-usage: python3 scripts/genregistry.py [depth] > checks/seq/reg/registry_gen.go"""
+usage: python3 scripts/genregistry.py [depth] > checks/seq/regtab/registry_gen.go"""
 import sys
 
 # (name, constructor expression, Go element type, comparable, scalar (may sit under Nullable / LowCardinality))
@@ -38,8 +38,8 @@ base("DateTime64(3, 'UTC')", "new(proto.ColDateTime64).WithPrecision(3).WithLoca
 base("DateTime64Raw(6)", "new(proto.ColDateTime64).WithPrecision(6).Raw()", "proto.DateTime64")
 base("Enum8", "new(proto.ColEnum8)", "proto.Enum8")
 base("Enum16", "new(proto.ColEnum16)", "proto.Enum16")
-base("Enum8('a'=1,'b'=2,'c'=-3)", "mustEnum(\"Enum8('a' = 1, 'b' = 2, 'c' = -3)\")", "string")
-base("Enum16('x'=1000,'y'=-2)", "mustEnum(\"Enum16('x' = 1000, 'y' = -2)\")", "string")
+base("Enum8('a'=1,'b'=2,'c'=-3)", "reg.Enum(\"Enum8('a' = 1, 'b' = 2, 'c' = -3)\")", "string")
+base("Enum16('x'=1000,'y'=-2)", "reg.Enum(\"Enum16('x' = 1000, 'y' = -2)\")", "string")
 for n in ["Decimal32", "Decimal64", "Decimal128", "Decimal256"]:
     base(n, f"new(proto.Col{n})", f"proto.{n}")
 base("IntervalSecond", "&proto.ColInterval{Scale: proto.IntervalSecond}", "proto.Interval", nowrap=True)  # not a ColumnOf (no AppendArr)
@@ -67,7 +67,7 @@ def wrap(e):
 
 def main():
     depth = int(sys.argv[1]) if len(sys.argv) > 1 else 2
-    pkg = sys.argv[2] if len(sys.argv) > 2 else "reg"
+    pkg = sys.argv[2] if len(sys.argv) > 2 else "regtab"
     only = set(sys.argv[3].split(",")) if len(sys.argv) > 3 else None
     levels = [[b for b in BASES if only is None or b["name"] in only]]
     for d in range(depth):
@@ -86,10 +86,10 @@ def main():
     print()
     print(f"package {pkg}")
     print()
-    print('import (\n\t"time"\n\n\t"github.com/ClickHouse/ch-go/proto"\n\t"github.com/google/uuid"\n)\n')
+    print('import (\n\t"time"\n\n\t"github.com/ClickHouse/ch-go/proto"\n\t"github.com/google/uuid"\n\n\t"verif/checks/seq/reg"\n)\n')
     print("var _ time.Time\nvar _ uuid.UUID\n")
     print("// Generated is the list of column constructors (label, nesting depth, constructor).")
-    print("var Generated = []Entry{")
+    print("var Generated = []reg.Entry{")
     for e in entries + tuples:
         print(f"\t{{Label: {json_str(e['name'])}, Depth: {e['depth']}, New: func() proto.Column {{ return {e['ctor']} }}}},")
     print("}")
